@@ -107,14 +107,15 @@ def stepD (st : Data) (idx : Nat) (toks : List String) : Data × String :=
       | some rs => (st, s!"ok {toHex (packMsg rs)}")
       | none => (st, "err no-cookie")
     | _, _, _, _ => (st, "bad-op")
-  | ["e2e.fetch", port, clen] =>
+  | [op, port, clen] =>
+    if op ≠ "e2e.fetch" ∧ op ≠ "e2e.fetchq" then (st, "bad-op") else
     match port.toNat?, clen.toNat? with
     | some port, some clen =>
       let ip := "127.0.0.1".toList.map Char.toNat
       match serverMsg ip port (List.replicate 8 (List.replicate clen 0)) with
       | none => (st, "err no-cookie")
       | some rs =>
-        let e : Exchange := { dialOk := true, host := ip, alpn := alpnProto, stream := [packMsg rs],
+        let e : Exchange := { quic := op = "e2e.fetchq", dialOk := true, host := ip, alpn := alpnProto, stream := [packMsg rs],
                               c2s := symC2S 0, s2c := symS2C 0 }
         let r := fetchData {} e
         match r.out with
